@@ -1,13 +1,13 @@
 #!/bin/bash
 # confirm round-2 seeded changes in one scratch worktree: suite passes with the change, demo fails with it and passes without it
-w=/tmp/seed2/confirm/wt
-export CARGO_NET_OFFLINE=true CARGO_TARGET_DIR=/tmp/seed2/confirm/target
+w=${ROUND_DIR:-/tmp/seed2}/confirm/wt
+export CARGO_NET_OFFLINE=true CARGO_TARGET_DIR=${ROUND_DIR:-/tmp/seed2}/confirm/target
 cd $w || exit 2
 for P in "$@"; do
  for N in 1 2; do
-  src=/tmp/seed2/$P/out
+  src=${ROUND_DIR:-/tmp/seed2}/$P/out
   [ -f $src/patch$N.diff ] || continue
-  id=${P}r2$( [ $N = 1 ] && echo a || echo b )
+  id=${P}${TAG:-r2}$( [ $N = 1 ] && echo a || echo b )
   out=/verif/seeded/$id
   mkdir -p $out
   git checkout -- . ; rm -rf tests
@@ -17,11 +17,11 @@ for P in "$@"; do
   echo "== suite with change (lib tests)"; timeout 1200 cargo test --offline --lib 2>&1 | grep -E "^test result|FAILED|failed|panicked" | head -6
   echo "== suite with change, second run"; timeout 1200 cargo test --offline --lib 2>&1 | grep -E "^test result|FAILED|failed|panicked" | head -6
   echo "== full-feature build"; cargo build --offline --features full 2>&1 | grep -E "^error|Finished" | head -3
-  echo "== hooks build"; RUSTFLAGS='--cfg transparencies_stretto_verif' cargo build --offline --features full --target-dir /tmp/seed2/confirm/target_v 2>&1 | grep -E "^error|Finished" | head -3
+  echo "== hooks build"; RUSTFLAGS='--cfg transparencies_stretto_verif' cargo build --offline --features full --target-dir ${ROUND_DIR:-/tmp/seed2}/confirm/target_v 2>&1 | grep -E "^error|Finished" | head -3
   mkdir -p tests; cp $out/demo.rs tests/demo_violation.rs
-  echo "== demo WITH change"; timeout 1200 cargo test --offline --test demo_violation 2>&1 | grep -E "^test result|panicked|FAILED" | head -5
+  echo "== demo WITH change"; timeout 1200 cargo test --offline --features full --test demo_violation 2>&1 | grep -E "^test result|panicked|FAILED" | head -5
   git checkout -- src
-  echo "== demo WITHOUT change"; timeout 1200 cargo test --offline --test demo_violation 2>&1 | grep -E "^test result|panicked|FAILED" | head -5
+  echo "== demo WITHOUT change"; timeout 1200 cargo test --offline --features full --test demo_violation 2>&1 | grep -E "^test result|panicked|FAILED" | head -5
   rm -rf tests
   } > $out/confirm.log 2>&1
   echo "$id done"
